@@ -143,7 +143,9 @@ def run(ctx):
     if wd:
       step = f'({step} + wd * params)'
     exp_upd = spec_term(ev, f'-lr * {step}', dict(env, T=Tt))
-    ctx.ob('C12.R1e', fu.short, f'step = -lr (beta1 m + w1 g / sqrt(T + eps) [+ wd p]) {tag}', cmpr.same(upd, exp_upd),
+    # the emitted step is the float momentum itself: for the STEP the quantizer is not transparent (a step read back from the
+    # freshly quantized state is the int8 round trip of the momentum - up to half a bucket larger than AdaGrad's)
+    ctx.ob('C12.R1e', fu.short, f'step = -lr (beta1 m + w1 g / sqrt(T + eps) [+ wd p]) {tag}', Comparer().same(upd, exp_upd),
            f'the update must precondition the SAME gradient that entered T by 1/sqrt(T + eps) of the same T, then momentum, weight decay, -lr; got `{cmpr.fmt(upd)[:300]}`',
            ctx.loc(fu), sample='-lr (b1 m + w1 g / sqrt(T + eps))')
     exp_m = spec_term(ev, f'beta1 * mom + {w1} * (g * (1.0 / jnp.sqrt(T + eps)))', dict(env, T=Tt))
